@@ -98,6 +98,17 @@ def run(ctx):
                 if not agree(d, exp):
                     res.violations.append({"clause": "ndim distance == DTW with squared Euclidean vector distance",
                                            "engine": eng, "case": case, "got": d, "expected": exp})
+            # the flat-buffer entry point of the C wrapper: a view on the first len*d values of a larger buffer whose
+            # tail holds other numbers must give the same distance
+            if not case.get("use_pruning") and "inner_dist" not in kw:
+                big1 = np.concatenate([np.ascontiguousarray(s1).ravel(), np.full(3 * s1.size + 4, 97.0)])
+                big2 = np.concatenate([np.ascontiguousarray(s2).ravel(), np.full(3 * s2.size + 4, -55.0)])
+                d_flat = call(lambda: impl.canon(dtw_cc.distance_ndim_assinglearray(big1[:s1.size], big2[:s2.size], nd, **kw)))
+                res.hit("flat_buffer_wrapper")
+                if not agree(d_flat, exp):
+                    res.violations.append({"clause": "ndim distance through the flat-buffer C wrapper "
+                                                     "(dtw_cc.distance_ndim_assinglearray)", "case": case, "got": d_flat,
+                                           "expected": exp})
             # cost matrix and path (no thresholds)
             if not case.get("use_pruning"):
                 for eng, fn in (("python", dtw_ndim.warping_paths), ("C", dtw_ndim.warping_paths_fast)):
